@@ -435,8 +435,11 @@ def _rot_to(u, v):
 
 def _near_axis_rotation(rng, line):
     k, j = rng.choice(3, 2, replace=False)
-    target = np.eye(3)[k] * rng.choice([-1, 1]) + np.eye(3)[j] * rng.choice([-1, 1]) * 10.0 ** (-rng.integers(2, 13))
-    if rng.random() < 0.3:
+    # tilt from the axis: any decade from 1e-2 to 1e-12, with half of the draws in the band 3e-8 .. 3e-5 where a tolerance
+    # of 1e-5 .. 1e-8 on "is this the axis" would decide differently from the exact test
+    tilt = 10.0 ** (-rng.uniform(4.5, 7.5)) if rng.random() < 0.5 else 10.0 ** (-rng.integers(2, 13))
+    target = np.eye(3)[k] * rng.choice([-1, 1]) + np.eye(3)[j] * rng.choice([-1, 1]) * tilt
+    if rng.random() < 0.2:
         target = np.eye(3)[k] * rng.choice([-1, 1])
     return _rot_to(np.asarray(line, float), target)
 
@@ -467,6 +470,11 @@ def random_trace(seed, tid, workdir, props):
             u = u / L
             w = np.cross(u, _unit(rng)) * rng.uniform(0.0, 0.3)
             tpos[t] = 0.5 * (pos[a] + pos[b]) + w + u * 10.0 ** (-rng.uniform(3.4, 5.5))
+    # a branched anchor whose frame neighbours are nearly aligned gets a target atom of its own (right next to it)
+    for a in anchors:
+        if n >= 4 and len(nb[a]) >= 3 and _sin_at(pos, *triple[a]) < 0.1:
+            tpos[nt - 1] = pos[a] + _unit(rng) * 0.02
+            break
     names = ['C%d' % (i + 1) for i in range(n)]
     # reference and target split into the same number of residues (as a protein and its finer image are): the map tables
     # are per molecule, whatever the residue structure
@@ -580,7 +588,7 @@ def random_trace(seed, tid, workdir, props):
                     out_[t] = 64 * 1.2e-16 * big / (ln * sn) * max(d_exp[t], 1e-3)
         return out_
     if 'C02' in props or 'C01' in props:
-        for _ in range(2 if 'C02' in props else 0):
+        for _ in range((4 if (deg or n == 2) else 2) if 'C02' in props else 0):
             R = _random_rotation(rng)
             if (deg or n == 2) and rng.random() < 0.6:
                 # bring the line of a collinear anchor (or the bond of a two-atom reference) to a tiny angle
@@ -644,6 +652,23 @@ def random_trace(seed, tid, workdir, props):
                 out4 = m(mol4).atoms_positions
                 ev.append({'op': 'Displace', 'atom': int(d) + 1,
                            'unchanged': [bool(x) for x in (np.abs(out4 - out3).max(axis=1) <= 1e-12)]})
+        if n >= 3 and not deg:
+            # locality at the construction conformation itself (nearly aligned frames included): the third and later
+            # neighbours of a branched anchor are outside its frame - moving them must not move its atoms
+            mol0 = refmol.copy()
+            mol0.atoms_positions = pos
+            out0 = m(mol0).atoms_positions
+            outside = [sorted(nb[a])[2] for a in anchors if len(nb[a]) >= 3]
+            for d in outside[:6] + [int(x) for x in rng.permutation(n)[:2]]:
+                pos5 = pos.copy()
+                pos5[d] += rng.normal(0, 0.05, 3)
+                if _classify(pos5, anchors, triple) != []:
+                    continue
+                mol5 = refmol.copy()
+                mol5.atoms_positions = pos5
+                out5 = m(mol5).atoms_positions
+                ev.append({'op': 'Displace', 'atom': int(d) + 1,
+                           'unchanged': [bool(x) for x in (np.abs(out5 - out0).max(axis=1) <= 1e-12)]})
     return {'tid': tid, 'cfg': {'n': n, 'bonds': [list(b) for b in bonds], 'nt': nt,
                                 'degenerate': [a + 1 for a in (deg or [])]},
             'meta': {'seed': seed, 'kind': kind, 'scale': s, 'positions': pos.tolist(),
